@@ -57,6 +57,7 @@ def run(ctx: Ctx) -> None:
     active_columns_table(ctx, py, rs)
     debounce_arms_repeat(ctx, py, rs)
     kil_read_fresh(ctx, py)
+    api_parity_and_full_scan(ctx, py, rs)
 
 
 # ---------------------------------------------------------------------------
@@ -376,13 +377,15 @@ def keyi_guards(ctx: Ctx, py: PyProgram, rs: RustProgram) -> None:
     # Python: _set_isr_bits(KEYI) sites
     mod = py.module(EMU)
     cls = py.need_cls(mod, "PCE500Emulator")
-    py_scope = {"_tick_timers", "step", "_scan_keyboard_per_instruction"}  # keyboard event path: timer-driven scan, per-instruction scan, latch re-assert
+    # every method that asserts KEYI is on the keyboard event path and must satisfy the gate, except the ones listed here with a reason
+    py_exempt = {"notify_lcd_interrupt": "LCD-write nudge of the pure-Rust LCD path (not a keyboard event), gated on the IRQ enable only",
+                 "_set_isr_bits": "the ISR OR-helper itself"}
     for mname, m in cls.methods.items():
         hits = [c for c in ast.walk(m) if py_is_call(c, "self._set_isr_bits") and c.args and "KEYI" in unparse(c.args[0])]
         if not hits:
             continue
-        if mname not in py_scope:
-            ctx.observe(f"{EMU}::PCE500Emulator.{mname} also asserts KEYI (outside the keyboard event path checked by C14.3)")
+        if mname in py_exempt:
+            ctx.observe(f"{EMU}::PCE500Emulator.{mname} also asserts KEYI ({py_exempt[mname]})")
             continue
         g = cfgmod.build_py(m, mname)
         for c in hits:
@@ -455,7 +458,7 @@ def _gate_counterexample(guards: list, allow_latch: bool = True, defs: dict | No
         if not all(_evalb(g, val) == pol for g, pol in guards):
             continue
         def is_events(a: str) -> bool:
-            return any(k in desc[a] for k in ("scan_tick", "fifo", "keyboard.", "event"))
+            return any(k in desc[a] for k in ("scan_tick", "fifo"))     # results of a scan or of a FIFO query, however the locals are called
         latch = allow_latch and any(v for a, v in val.items() if "_key_irq_latched" in desc[a])
         enabled = any(v for a, v in val.items() if "_kb_irq_enabled" in desc[a])
         events = any(v for a, v in val.items() if is_events(a))
@@ -683,3 +686,64 @@ def kil_read_fresh(ctx: Ctx, py: PyProgram) -> None:
             ctx.violation("C14.2/kil-read-fresh", key_of(KH_PY, "PCE500KeyboardHandler.handle_register_read", "KIL read returns a cached value"),
                           f"the KIL read returns `{unparse(v)}` without querying the matrix in the same call: after a strobe change that did not refresh the cache (e.g. a write to KOH only) a held key on a column that is no longer strobed still shows its row bit", f"{KH_PY}:{r.lineno}")
     ctx.instance("C14.2/kil-read-fresh", "returns of the KIL read path that come from a matrix query made in the same call", n, 2)
+
+
+def api_parity_and_full_scan(ctx: Ctx, py: PyProgram, rs: RustProgram) -> None:
+    """(a) A scan tick visits every key: the per-key loop of scan_tick is entered whenever scanning is enabled (released keys age
+    while no column is strobed too) - in both cores.  (b) The host-facing press/release entry points reset the same per-key fields
+    in both cores: a handler that also clears `debounced` ends (or restarts) the debounce automaton behind the scan's back, so the
+    release event - or the "no second press without a release" order - is lost."""
+    n = 0
+    cls = py.need_cls(py.module(KM_PY), "KeyboardMatrix")
+    st = cls.methods.get("scan_tick")
+    ctx.need(st is not None, "KeyboardMatrix.scan_tick vanished")
+    g = cfgmod.build_py(st, "scan_tick")
+    loops = [l for l in ast.walk(st) if isinstance(l, ast.For) and any(py_is_call(c, "self._update_key_state") for c in ast.walk(l))]
+    ctx.need(len(loops) == 1, "scan_tick: per-key loop not found")
+    n += 1
+    pcalls = [c for c in ast.walk(loops[0]) if py_is_call(c, "self._update_key_state")]
+    extra = [py_guard_text(q) for q in g.guards_of(g.node_of(pcalls[0])) if isinstance(q[0], ast.AST) and "scan_enabled" not in unparse(q[0]) and q[2] != "for"]
+    if extra:
+        ctx.violation("C14.4/full-scan", key_of(KM_PY, "KeyboardMatrix.scan_tick", "per-key loop skipped"), f"the per-key debounce loop only runs under {extra}: keys that were released keep their debounced state (and their KIL row) for as long as that condition fails, instead of for the release interval", f"{KM_PY}:{loops[0].lineno}")
+    rfn = rs.fn(KB_RS, "KeyboardMatrix::scan_tick")
+    gr = cfgmod.build_rs(rfn.node, rfn.qual)
+    rloops = [l for l in walk(rfn.body) if l.get("k") == "for" and any(a.get("k") in ("assign", "opassign") and a["l"].get("k") == "field" and a["l"].get("name") == "press_ticks" for a in walk(l["body"]))]
+    ctx.need(len(rloops) >= 1, "Rust scan_tick: per-key loop not found")
+    n += 1
+    rsite = next(a for a in walk(rloops[0]["body"]) if a.get("k") in ("assign", "opassign") and a["l"].get("k") == "field" and a["l"].get("name") == "press_ticks")
+    rguards = gr.guards_of(gr.node_of(rsite))
+    # guards inside the loop body belong to the automaton (sibling rule); the ones that enclose the loop are the question here
+    inner = {id(x) for x in walk(rloops[0]["body"])}
+    rextra = [rs_guard_text(q) for q in rguards if isinstance(q[0], dict) and id(q[0]) not in inner and "scan_enabled" not in expr_text(q[0]) and q[2] != "for"]
+    if rextra:
+        ctx.violation("C14.4/full-scan", key_of(rfn.file, rfn.qual, "per-key loop skipped"), f"the Rust per-key debounce loop only runs under {rextra}", rfn.where)
+    # (b)
+    def py_fields(mname: str) -> dict:
+        m = cls.methods.get(mname)
+        ctx.need(m is not None, f"KeyboardMatrix.{mname} vanished")
+        out = {}
+        for a in ast.walk(m):
+            if isinstance(a, ast.Assign):
+                for t in a.targets:
+                    if isinstance(t, ast.Attribute) and isinstance(t.value, ast.Name) and t.attr in ("pressed", "debounced"):
+                        out[t.attr] = unparse(a.value).replace("True", "true").replace("False", "false")
+        return out
+
+    def rs_fields(q: str) -> dict:
+        f = rs.fn(KB_RS, q)
+        out = {}
+        for a in walk(f.body):
+            if a.get("k") == "assign" and a["l"].get("k") == "field" and a["l"].get("name") in ("pressed", "debounced"):
+                out[a["l"]["name"]] = expr_text(a["r"]).replace(" ", "")
+        return out
+    for pyn, rsn in (("press_key", "KeyboardMatrix::press_matrix_code"), ("release_key", "KeyboardMatrix::release_matrix_code")):
+        pf, rf = py_fields(pyn), rs_fields(rsn)
+        for who, flds, where_, q in (("Python", pf, KM_PY, f"KeyboardMatrix.{pyn}"), ("Rust", rf, rs.file_for(KB_RS), rsn)):
+            n += 1
+            if "pressed" not in flds:
+                ctx.violation("C14.4/debounce-owner", key_of(where_, q, "does not record the key level"), f"{q} does not set state.pressed", where_)
+            if "debounced" in flds:
+                ctx.violation("C14.4/debounce-owner", key_of(where_, q, "debounced changed outside the scan"),
+                              f"{q} sets state.debounced = {flds['debounced']}: the debounced flag belongs to the scan automaton, which emits the press event when it sets it and the release event when it clears it. "
+                              + ("Clearing it on release means the release event is never produced." if "release" in q else "Clearing it on a press makes the scan debounce (and report) a key a second time without a release in between."), where_)
+    ctx.instance("C14.4/api-and-scan", "scan_tick visits every key (both cores); press/release entry points agree on the pressed/debounced fields they set (both cores)", n, 4)
